@@ -8,7 +8,7 @@ thread_local std::ostream* g_os = nullptr;
 void off_cb(const long long* v, const long long* pts, int npts) {
   std::vector<Point64> P; for (int i = 0; i < npts; ++i) P.emplace_back((int64_t)pts[2 * i], (int64_t)pts[2 * i + 1]);
   (*g_os) << Ev("Join").kv("pk", jints({v[0], v[1]})).kv("pj", jints({v[2], v[3]})).kv("nk", jints({v[4], v[5]})).kv("nj", jints({v[6], v[7]}))
-              .kn("d", v[8]).kn("jt", v[9]).kn("et", v[10]).kn("ml", v[11]).kv("pts", jpath(P)).str() << "\n";
+              .kn("d", v[8]).kn("jt", v[9]).kn("et", v[10]).kn("ml", v[11]).kn("at", v[12]).kn("spr", v[13]).kn("cap", v[14]).kv("pts", jpath(P)).str() << "\n";
 }
 int cmd_offj(const Args& a) {
   Rng r((uint64_t)argi(a, "seed", 1)); long long n = argi(a, "n", 100);
@@ -17,9 +17,9 @@ int cmd_offj(const Args& a) {
   for (long long b = 0; b < n; ++b) {
     Path64 p; int nv = (int)r.range(3, 8); for (int i = 0; i < nv; ++i) p.emplace_back((int64_t)r.range(0, 100), (int64_t)r.range(0, 100));
     int jt = (int)r.range(0, 3), et = (int)r.range(0, 4); double d = deltas[r.range(0, 5)] * (r.coin() ? 1 : -1);
-    double ml = mls[r.range(0, 3)];
-    os << "{\"e\":\"JCase\",\"case\":{\"paths\":" << jpaths(Paths64{p}) << ",\"jt\":" << jt << ",\"et\":" << et << ",\"d4\":" << std::llround(d * 4) << ",\"ml100\":" << std::llround(ml * 100) << ",\"at4\":0,\"sc\":4,\"rs\":0,\"pseed\":" << b << "}}\n";
-    ClipperOffset co(ml, 0.0); co.AddPath(p, (JoinType)jt, (EndType)et); Paths64 sol; co.Execute(d, sol);
+    double ml = mls[r.range(0, 3)]; static const double ats[] = {0, 0, 0.25, 1, 2}; double at = ats[r.range(0, 4)];
+    os << "{\"e\":\"JCase\",\"case\":{\"paths\":" << jpaths(Paths64{p}) << ",\"jt\":" << jt << ",\"et\":" << et << ",\"d4\":" << std::llround(d * 4) << ",\"ml100\":" << std::llround(ml * 100) << ",\"at4\":" << std::llround(at * 4) << ",\"sc\":4,\"rs\":0,\"pseed\":" << b << "}}\n";
+    ClipperOffset co(ml, at); co.AddPath(p, (JoinType)jt, (EndType)et); Paths64 sol; co.Execute(d, sol);
   }
   Clipper2Lib::verif::offset_fn = nullptr; return 0;
 }
